@@ -213,6 +213,8 @@ def ensure(prop=None, everything=False):
     t0 = time.time()
     with Lock():
         os.makedirs(os.path.join(THEORIES, 'Generated'), exist_ok=True)
+        for ex in glob.glob(os.path.join(THEORIES, 'Extract', 'Ex*.v')):
+            os.makedirs(os.path.join(OCAML_BUILD, os.path.basename(ex)[2:-2]), exist_ok=True)
         regenerate(res)
         coq_project()
         exe = None
